@@ -189,73 +189,132 @@ func summariseCatch(c *core.Ctx, ci *catchImpl) {
 			ctxP, errP, exxP := np-3, np-2, np-1
 			ci.AlwaysFalse = true
 			failFast, try := true, true
+			bad := func(why string) {
+				failFast, try = false, false
+				if ci.Why == "" {
+					ci.Why = why
+				}
+			}
+			// Every path of catch is read as a sequence of hand-off attempts: a plain send of the error, or a select
+			// whose arms are the send of the error on exx and / or <-ctx.Done(), with or without a default. What the
+			// two forms have to guarantee, whatever the sequence looks like: the error is handed over at most once and
+			// nothing is attempted after that; a path that ends without having handed it over has seen the context
+			// done (never just given up); try answers true exactly when it was handed over, fail-fast answers false
+			// always. A path on which the error or the channel was found nil cannot be taken by any caller.
 			for _, p := range an.AllPaths() {
+				nilArg := false
+				for _, b := range p.Events(ir.KBranch) {
+					at := b.Atom
+					if at.Op == "bin" && at.Aux == "==" && len(at.Args) == 2 && b.Pol {
+						for j := 0; j < 2; j++ {
+							if at.Args[j].IsNil() && (paramOf(at.Args[1-j], fn, errP) || paramOf(at.Args[1-j], fn, exxP)) {
+								nilArg = true
+							}
+						}
+					}
+				}
+				if nilArg {
+					continue
+				}
+				plain, sent, cancelled, gaveUp := 0, 0, false, false
+				afterSent := false
+				for i := range p.Steps {
+					st := &p.Steps[i]
+					switch st.Kind {
+					case ir.KSend:
+						if paramOf(st.A[0], fn, exxP) && paramOf(st.A[1], fn, errP) {
+							if sent > 0 {
+								afterSent = true
+							}
+							plain++
+							sent++
+							gaveUp = false
+						} else {
+							bad("catch sends something other than (exx <- err)")
+						}
+					case ir.KSelect:
+						sendArm, dArm, other := -1, -1, false
+						for j, a := range st.Arms {
+							switch {
+							case a.Send && paramOf(a.Chan, fn, exxP) && paramOf(a.Val, fn, errP):
+								sendArm = j
+							case !a.Send && func() bool {
+								m, _, args, ok := callParts(a.Chan)
+								return ok && m == "Done" && len(args) == 1 && paramOf(args[0], fn, ctxP)
+							}():
+								dArm = j
+							default:
+								other = true
+							}
+						}
+						if other || sendArm < 0 && dArm < 0 {
+							bad("select of catch is not {exx <- err | <-ctx.Done()}")
+							continue
+						}
+						if st.Blocking && dArm < 0 {
+							bad("a blocking select of catch has no <-ctx.Done() arm")
+							continue
+						}
+						if sent > 0 {
+							afterSent = true
+						}
+						switch {
+						case st.Chosen >= 0 && st.Chosen == sendArm:
+							sent++
+							gaveUp = false
+						case st.Chosen >= 0 && st.Chosen == dArm:
+							cancelled = true
+						default:
+							gaveUp = true // default arm: this attempt found no room
+						}
+					case ir.KRecv, ir.KGo, ir.KClose, ir.KDefer:
+						bad("catch performs unexpected channel/goroutine operations")
+					}
+				}
+				if plain > ci.PlainSends {
+					ci.PlainSends = plain
+				}
+				if p.Exit == ir.ExitPanic {
+					// `select { case exx <- err: default: panic("no room") }` in the fail-fast form: the claim that the
+					// channel has room is the capacity claim errch-capacity / accounted-send check; any other panic is one
+					if sent == 0 && gaveUp && plain == 0 {
+						try = false
+						continue
+					}
+					ci.AlwaysFalse = false
+					bad("catch can panic")
+					continue
+				}
 				if p.Exit != ir.ExitReturn || len(p.Results) != 1 {
-					ci.Why = "catch can panic"
-					failFast, try, ci.AlwaysFalse = false, false, false
+					ci.AlwaysFalse = false
+					bad("catch can panic")
 					continue
 				}
 				ret := p.Results[0]
 				if !(ret.IsConst() && ret.Aux == "false") {
 					ci.AlwaysFalse = false
 				}
-				plain, sel, sentBySelect := 0, 0, false
-				for i := range p.Steps {
-					st := &p.Steps[i]
-					switch st.Kind {
-					case ir.KSend:
-						if paramOf(st.A[0], fn, exxP) && paramOf(st.A[1], fn, errP) {
-							plain++
-						} else {
-							ci.Why = "catch sends something other than (exx <- err)"
-							failFast, try = false, false
-						}
-					case ir.KSelect:
-						sel++
-						sendArm, dArm := -1, -1
-						for j, a := range st.Arms {
-							if a.Send && paramOf(a.Chan, fn, exxP) && paramOf(a.Val, fn, errP) {
-								sendArm = j
-							}
-							if !a.Send {
-								if m, _, args, ok := callParts(a.Chan); ok && m == "Done" && len(args) == 1 && paramOf(args[0], fn, ctxP) {
-									dArm = j
-								}
-							}
-						}
-						if len(st.Arms) != 2 || !st.Blocking || sendArm < 0 || dArm < 0 {
-							failFast, try = false, false
-							ci.Why = "select of catch is not {exx <- err | <-ctx.Done()}"
-							continue
-						}
-						sentBySelect = st.Chosen == sendArm
-						want := "false"
-						if sentBySelect {
-							want = "true"
-						}
-						if !(ret.IsConst() && ret.Aux == want) {
-							try = false
-							if ci.Why == "" {
-								ci.Why = fmt.Sprintf("catch returns %s when arm %d of its select is taken (the try form returns %s)", short(ret), st.Chosen, want)
-							}
-						}
-					case ir.KRecv, ir.KGo, ir.KClose, ir.KDefer:
-						failFast, try = false, false
-						ci.Why = "catch performs unexpected channel/goroutine operations"
-					}
+				if sent > 1 || afterSent {
+					bad(fmt.Sprintf("a path of catch hands the error over %d times / goes on after having handed it over (want exactly 1 hand-off)", sent))
 				}
-				if plain > ci.PlainSends {
-					ci.PlainSends = plain
-				}
-				// one hand-off attempt per path
-				if plain+sel != 1 {
-					failFast, try = false, false
-					if ci.Why == "" {
-						ci.Why = fmt.Sprintf("a path of catch makes %d hand-off attempts (want exactly 1)", plain+sel)
+				if sent == 0 && !cancelled {
+					bad("a path of catch makes 0 hand-off attempts (want exactly 1)")
+					if gaveUp {
+						ci.Why = "a path of catch gives up without having handed the error over and without the context being done: the error is lost"
 					}
 				}
 				if plain != 0 {
 					try = false
+				}
+				want := "false"
+				if sent == 1 {
+					want = "true"
+				}
+				if !(ret.IsConst() && ret.Aux == want) {
+					try = false
+					if ci.Why == "" {
+						ci.Why = fmt.Sprintf("catch returns %s on a path that %s (the try form returns %s)", short(ret), map[bool]string{true: "handed the error over", false: "saw the context done"}[sent == 1], want)
+					}
 				}
 			}
 			if !ci.AlwaysFalse {
@@ -282,6 +341,43 @@ func summariseCatch(c *core.Ctx, ci *catchImpl) {
 				if k, ok := capT.IntConst(); ok {
 					ci.CapConst = k
 				} else if paramOf(capT, fn, len(fn.Params)-1) {
+					ci.CapParam = true
+				} else if d, isD := plusConst(capT, &ir.Term{Op: "param", Aux: fn.Params[len(fn.Params)-1].Name(), Src: fn.Params[len(fn.Params)-1]}); isD && d >= 0 {
+					ci.CapParam = true // the requested capacity and some more
+				}
+			} else if len(ps) > 1 {
+				// the requested capacity, clamped from below: every path returns a channel of the requested capacity (or
+				// more), or of a constant capacity >= 0 on a path that found the request smaller than a constant
+				capP := fn.Params[len(fn.Params)-1]
+				all, anyParam := true, false
+				for _, p := range ps {
+					if p.Exit != ir.ExitReturn || len(p.Results) != 1 || p.Results[0].Op != "mkchan" {
+						all = false
+						break
+					}
+					capT := p.Results[0].Args[0]
+					if paramOf(capT, fn, len(fn.Params)-1) {
+						anyParam = true
+						continue
+					}
+					if d, isD := plusConst(capT, &ir.Term{Op: "param", Aux: capP.Name(), Src: capP}); isD && d >= 0 {
+						anyParam = true
+						continue
+					}
+					k, isK := capT.IntConst()
+					clamped := false
+					for _, b := range p.Events(ir.KBranch) {
+						if b.Atom.Op == "bin" && (b.Atom.Aux == "<" || b.Atom.Aux == "<=") && len(b.Atom.Args) == 2 && b.Pol && paramOf(b.Atom.Args[0], fn, len(fn.Params)-1) {
+							if c0, isC := b.Atom.Args[1].IntConst(); isC && c0 <= k+1 {
+								clamped = true
+							}
+						}
+					}
+					if !(isK && k >= 0 && clamped) {
+						all = false
+					}
+				}
+				if all && anyParam {
 					ci.CapParam = true
 				}
 			}
